@@ -1484,6 +1484,37 @@ def _cget(ctx, key, default=None):
     return default
 
 
+import re as _re
+_CAST_HEAD = _re.compile(r"\(\s*[A-Za-z_]\w*\s*\*+\s*\)")
+_KW_TYPES = {"int", "char", "short", "long", "float", "double", "void", "unsigned", "signed", "struct", "union", "enum", "const"}
+
+
+def _paren_group_starts_with_typedef_ptr_cast(line):
+    """the line has a `)` directly followed by a binary operator character (the O01 site) and the `(` matching it is directly
+    followed by a cast `(name *)` to a pointer to a typedef name"""
+    for m in _re.finditer(r"\)(?=[<>=!&|^%/*+\-])(?!->)", line):
+        depth, k = 0, m.start()
+        while k >= 0:
+            if line[k] == ")":
+                depth += 1
+            elif line[k] == "(":
+                depth -= 1
+                if depth == 0:
+                    break
+            k -= 1
+        if k < 0:
+            continue
+        h = _CAST_HEAD.match(line, k + 1)
+        if h and line[k + 2:h.end()].strip(" *)").strip() not in _KW_TYPES:
+            return True
+    return False
+
+
+def _line_of(edit):
+    ls = edit.src.split("\n")
+    return ls[edit.line - 1] if 0 < edit.line <= len(ls) else ""
+
+
 def known_miss(op_id, edit, P):
     """finding id when the site matches the (narrow) predicate of a genuine miss of the pinned tree, else None"""
     c = edit.ctx
@@ -1506,6 +1537,10 @@ def known_miss(op_id, edit, P):
         # `(ab)+ cd`, `f(ab)+ cd`, `f(ab) +cd` directly in the function's block (Context.parenthesis_contain asks for
         # scope.name == "Function"): `(identifier)` is taken for a cast and the sign for a unary operator
         return "C02-O01-paren-ident-sign"
+    if op_id == "O01" and g("left") == "RPARENTHESIS" and _paren_group_starts_with_typedef_ptr_cast(_line_of(edit)):
+        # `fn((t_list *)x)< y`, `((t_list *)x)< y`: the left operand ends in `)` and the matching `(` is directly followed by
+        # a cast to a pointer to a typedef name; SPC_AFTER_PAR (or nothing for + - &) is printed instead of SPC_BFR_OPERATOR
+        return "C02-O01-typedef-pointer-cast"
     if op_id == "N01" and g("k") == "proto":
         # CheckIdentifierName looks at function names only after IsFuncDeclaration, never after IsFuncPrototype
         return "C02-N01-prototype-name"
